@@ -6,7 +6,7 @@ ids="$@"; [ -z "$ids" ] && ids=$(ls seeded | grep -v RESULTS)
 if [ -n "$(git -C /repo status --porcelain --untracked-files=no)" ]; then echo "/repo has local changes; refusing"; exit 2; fi
 for id in $ids; do
   st=$(python3 -c "import json;print(json.load(open('seeded/$id/meta.json')).get('status','live'))")
-  if [ "$st" = "superseded" ]; then echo "$id SUPERSEDED (see meta.json)"; continue; fi
+  if [ "$st" = "superseded" ] || [ "$st" = "unconfirmed" ]; then echo "$id ${st^^} (see meta.json)"; continue; fi
   prop=$(python3 -c "import json;print(json.load(open('seeded/$id/meta.json'))['property'])")
   extra=$(python3 -c "import json;print(' '.join(json.load(open('seeded/$id/meta.json')).get('also_check',[])))")
   if ! git -C /repo apply --check "$PWD/seeded/$id/patch.diff" 2>/dev/null; then echo "$id $prop PATCH-DOES-NOT-APPLY"; continue; fi
